@@ -579,3 +579,81 @@ Proof.
   intros Hapi Ha. destruct o as [u0|signer loc b delay sig|signer loc|signer|hash txs|]; try discriminate;
     cbn [actor] in Ha; subst signer; reflexivity.
 Qed.
+
+(* ------------------------------------------------------------------------------------------ *)
+(* 3. the add_appointment reply itself: a function of u's projection and two heights *)
+
+Definition add_reply (t : tower) (u loc : N) (b : blob) (sig : N) : add_result :=
+  match aget (gk_users t) u with
+  | None => AddAuthOrSlots
+  | Some ui =>
+      if N.leb (u_expiry ui) (gk_height t) then AddExpired (u_expiry ui)
+      else match find_trk (db_trks t) (loc, u) with
+           | Some _ => AddTriggered
+           | None =>
+               let used := match find_app (db_apps t) (loc, u) with Some a => slots_of (b_len (a_blob a)) | None => 0 end in
+               if N.leb (slots_of (b_len b)) (u_slots ui + used)
+               then AddOk (w_height t) sig ((u_slots ui + used - slots_of (b_len b)) mod U32MOD) (u_expiry ui)
+               else AddAuthOrSlots
+           end
+  end.
+
+Lemma add_reply_spec sc t u loc b delay sig r t' :
+  w_add_appointment sc t (Some u) loc b delay sig = Ok r t' -> r = add_reply t u loc b sig.
+Proof.
+  unfold w_add_appointment, add_reply, authenticate, amem.
+  destruct (aget (gk_users t) u) as [ui|] eqn:Eg; cbv beta iota; [|intros H; inversion H; reflexivity].
+  unfold gk_get. rewrite Eg.
+  destruct (N.leb (u_expiry ui) (gk_height t)); [intros H; inversion H; reflexivity|].
+  destruct (find_trk (db_trks t) (loc, u)); [intros H; inversion H; reflexivity|].
+  unfold gk_add_update_appointment, gk_get. rewrite Eg. cbv zeta.
+  match goal with |- context [if ?c then _ else _] => destruct c end; cbn [bind]; [|intros H; inversion H; reflexivity].
+  match goal with |- context [bind ?x _] => destruct x as [[] t2|] end; cbn [bind]; intros H; inversion H. reflexivity.
+Qed.
+
+Definition light_eq (u : N) (t1 t2 : tower) : Prop :=
+  proj u t1 = proj u t2 /\ gk_height t1 = gk_height t2 /\ w_height t1 = w_height t2.
+
+Lemma add_reply_light u t1 t2 loc b sig : light_eq u t1 t2 -> add_reply t1 u loc b sig = add_reply t2 u loc b sig.
+Proof.
+  intros [Hp [Hg Hw]]. unfold proj in Hp. injection Hp as H1 H2 H3 H4. unfold add_reply.
+  rewrite H1, Hg, Hw, (find_trk_proj _ loc u), (find_app_proj _ loc u), H3, H4, <- find_trk_proj, <- find_app_proj.
+  reflexivity.
+Qed.
+
+(* When the handler answers in both towers, the add_appointment reply depends only on u's own projection,
+   the gatekeeper's height and the watcher's height: not on the node's answers, not on the caches, not on
+   anything of any other user. *)
+Theorem add_reply_depends le t1 t2 sc1 sc2 u loc b delay sig s1 s2 r1 r2 :
+  light_eq u t1 t2 ->
+  step le t1 (OAdd (Some u) loc b delay sig) sc1 = (s1, OAddRes r1) ->
+  step le t2 (OAdd (Some u) loc b delay sig) sc2 = (s2, OAddRes r2) -> r1 = r2.
+Proof.
+  intros Hl. cbn [step]. change (set_rpc_log t1 []) with (fresh t1). change (set_rpc_log t2 []) with (fresh t2).
+  destruct (w_add_appointment sc1 (fresh t1) (Some u) loc b delay sig) as [a1 x1|] eqn:E1; cbn [wrap]; [|discriminate].
+  destruct (w_add_appointment sc2 (fresh t2) (Some u) loc b delay sig) as [a2 x2|] eqn:E2; cbn [wrap]; [|discriminate].
+  intros H1 H2. inversion H1. inversion H2. subst.
+  rewrite (add_reply_spec _ _ _ _ _ _ _ _ _ E1), (add_reply_spec _ _ _ _ _ _ _ _ _ E2).
+  apply add_reply_light. exact Hl.
+Qed.
+
+(* ------------------------------------------------------------------------------------------ *)
+(* 4. a concrete reachable tower: users 1 and 2 both hold locator 50; dispute 60 is in the locator cache *)
+
+Definition iso_cfg : config := mk_config 10 1000 10.
+Definition iso_boot : list (N * list N) := [(900, []); (899, [])].
+Definition iso_hist : list (op * script) :=
+  [ (ORegister 1, []); (ORegister 2, []);
+    (OAdd (Some 1) 50 (mk_blob 50 (Some 51) 3000) 20 7, []);
+    (OAdd (Some 2) 50 (mk_blob 50 (Some 52) 100) 20 8, []);
+    (OAdd (Some 2) 60 (mk_blob 60 (Some 62) 100) 20 9, []);
+    (OConnect 1001 [60], [(62, (G_not_found, A_ok))]) ].          (* (60,2) is triggered; 60 stays in the cache *)
+
+Definition iso_tower : option tower :=
+  match init iso_cfg 100 iso_boot with Some t0 => Some (fst (run true t0 iso_hist)) | None => None end.
+
+(* user 1's operations in that tower *)
+Definition iso_update : op := OAdd (Some 1) 50 (mk_blob 50 (Some 53) 100) 20 11.      (* replaces (50,1) *)
+Definition iso_late : op := OAdd (Some 1) 60 (mk_blob 60 (Some 61) 100) 20 12.        (* trigger in cache: tracker (60,1) *)
+Definition iso_late_script : script := [(61, (G_not_found, A_ok))].
+Definition iso_drop : op := OAdd (Some 1) 60 (mk_blob 99 None 100) 20 13.             (* trigger in cache, garbage blob: dropped *)
